@@ -6,7 +6,7 @@ import io
 import random
 import tempfile
 
-from .. import build, pcall
+from .. import build, pcall, pmap
 from ..terms import from_json
 from ..tracekit import validate_traces
 from . import c02
@@ -56,6 +56,8 @@ def one(rng: random.Random, k: int) -> dict:
     for j, kwj in enumerate(kws):
         events.append(ev(e="begin", out=o, kw=kwj, mode="call"))
         kwargs = {n: from_json(v) for n, v in kwj}
+        if k % 4 == 1:      # arguments that can be pickled but not copied (locks, open files, generators are valid arguments)
+            kwargs = {n: pmap.NoCopyAtom(v.f) if not v.a else v for n, v in kwargs.items()}
         start = len(build.LOG)
         try:
             with contextlib.redirect_stdout(io.StringIO()):
